@@ -23,6 +23,14 @@ Theorem C14_convert_revert : forall dt v nid, value_ok dt v ->
   exists t, revert_variable dt v = Some t /\ convert_variable nid dt t = Some v.
 Proof. exact convert_revert. Qed.
 
+(* a whole number assigned as a Python int to a REAL32/REAL64 object (var.default = -40) is written as str(int) and
+   read back by float() as the real number of that value (m * 10^e = z), not lost *)
+Theorem C14_real_int_roundtrip : forall nid dt z,
+  is_bytes_type dt = false -> is_text_type dt = false -> zmem dt FLOAT_TYPES = true ->
+  exists m e, revert_variable dt (PVInt z) = Some (dec z) /\
+              convert_variable nid dt (dec z) = Some (PVFloat m e) /\ 0 <= e /\ m * 10 ^ e = z.
+Proof. exact real_int_roundtrip. Qed.
+
 (* limits are written as str(v): read back for every data type; for a signed type the limit must not exceed the
    type's maximum (hypothesis forced by the code: a larger number is taken for a two's-complement pattern) *)
 Theorem C14_limit_roundtrip : forall dt v, (zmem dt SIGNED_TYPES = true -> v < 2 ^ (signed_width dt - 1)) ->
@@ -119,6 +127,7 @@ Qed.
 
 Print Assumptions C14_convert_revert_int.
 Print Assumptions C14_convert_revert.
+Print Assumptions C14_real_int_roundtrip.
 Print Assumptions C14_limit_roundtrip.
 Print Assumptions C14_int10_dec.
 Print Assumptions C14_export_import_var.
